@@ -16,6 +16,7 @@ import (
 	"fmt"
 	"os"
 	"strings"
+	"sync"
 	"unicode"
 
 	"go.pennock.tech/tabular/auto"
@@ -36,6 +37,13 @@ type C19Spec struct {
 	Regs  []C19Reg `json:"regs"`
 	Extra []string `json:"extra,omitempty"` // Go-quoted style strings, asked after every step
 	Full  bool     `json:"full,omitempty"`  // the large query set after the last registration
+	// Cold: the first registration is the very first thing this process asks of the registry
+	// (no listing, no lookup, no auto call before it); the initial content is then not dumped
+	// but taken to be the six documented built-ins.
+	Cold bool `json:"cold,omitempty"`
+	// Burst: all registrations (distinct names) are made at once from that many goroutines
+	// released together; only the state after the join is observed.
+	Burst int `json:"burst,omitempty"`
 }
 
 type C19Q struct {
@@ -51,6 +59,7 @@ type C19Q struct {
 type C19Step struct {
 	Listing []string `json:"listing"`
 	Qs      []C19Q   `json:"qs"`
+	Skipped bool     `json:"skipped,omitempty"` // a registration of a burst: nothing observed
 }
 
 type C19Out struct {
@@ -122,10 +131,25 @@ func c19Queries(listing []string, extra []string, level int, mine map[string]boo
 	if level == 0 {
 		return qs
 	}
-	for _, l := range listing {
+	for li, l := range listing {
 		add("texttable."+l, "texttable-prefix")
+		// names that merely resemble a listed one: they name nothing (unless registered themselves);
+		// for the names of this world, and for a third of the others in turn
+		if level < 2 && !mine[l] && (li+len(listing))%3 != 0 {
+			continue
+		}
+		add(l+"x", "near-miss-of-listed")
+		add(l+"such", "near-miss-of-listed")
+		if len(l) > 0 {
+			add(l[:len(l)-1], "near-miss-of-listed")
+		}
+		add("texttable."+l+"d", "near-miss-of-listed")
 		if level < 2 && !mine[l] {
 			continue
+		}
+		add(l+"-v2.x", "near-miss-of-listed")
+		if len(l) > 1 {
+			add(l[1:], "near-miss-of-listed")
 		}
 		for _, v := range caseVariants(l) {
 			add(v, "case-variant-of-listed")
@@ -229,7 +253,24 @@ func c19Worker() {
 	direct(103, markdown.Wrap(goodTable()).Render)
 	direct(104, tjson.Wrap(goodTable()).Render)
 
-	out := C19Out{Init: dumpRegistry()}
+	for _, r := range spec.Regs {
+		if r.D <= 0 || r.D >= len(regPalette) {
+			panic("decoration index out of range (C19 registers non-empty decorations only)")
+		}
+	}
+	var out C19Out
+	first := 0
+	if spec.Cold && len(spec.Regs) > 0 && spec.Burst == 0 {
+		// nothing above consulted the registry: constructors, SetDecoration and the other
+		// packages' renderers do not look names up
+		decoration.RegisterDecorationName(unq(spec.Regs[0].N), regPalette[spec.Regs[0].D])
+		first = 1
+		out.Init = assumedInit()
+	} else if spec.Cold {
+		out.Init = assumedInit()
+	} else {
+		out.Init = dumpRegistry()
+	}
 	mine := map[string]bool{}
 	observe := func(level int) {
 		var st C19Step
@@ -246,15 +287,46 @@ func c19Worker() {
 	if spec.Full {
 		last = 2
 	}
-	if len(spec.Regs) == 0 {
+	if spec.Burst > 0 {
+		// distinct names, registered at once
+		start := make(chan struct{})
+		var wg sync.WaitGroup
+		for g := 0; g < spec.Burst; g++ {
+			wg.Add(1)
+			go func(g int) {
+				defer wg.Done()
+				<-start
+				for i := g; i < len(spec.Regs); i += spec.Burst {
+					decoration.RegisterDecorationName(unq(spec.Regs[i].N), regPalette[spec.Regs[i].D])
+				}
+			}(g)
+		}
+		close(start)
+		wg.Wait()
+		for i := range spec.Regs {
+			mine[unq(spec.Regs[i].N)] = true
+			if i < len(spec.Regs)-1 {
+				out.Steps = append(out.Steps, C19Step{Skipped: true})
+			}
+		}
+		observe(0)
+		json.NewEncoder(os.Stdout).Encode(out)
+		return
+	}
+	if first == 1 {
+		mine[unq(spec.Regs[0].N)] = true
+		if len(spec.Regs) == 1 {
+			observe(last)
+		} else {
+			observe(1)
+		}
+	} else if len(spec.Regs) == 0 {
 		observe(last)
-	} else {
+	} else if !spec.Cold {
 		observe(0)
 	}
-	for i, r := range spec.Regs {
-		if r.D <= 0 || r.D >= len(regPalette) {
-			panic("decoration index out of range (C19 registers usable decorations only)")
-		}
+	for i := first; i < len(spec.Regs); i++ {
+		r := spec.Regs[i]
 		decoration.RegisterDecorationName(unq(r.N), regPalette[r.D])
 		mine[unq(r.N)] = true
 		if i == len(spec.Regs)-1 {
@@ -316,9 +388,14 @@ func c19Run(spec json.RawMessage) CaseOut {
 	nq := 0
 	knownClass := false
 	classes := map[string]bool{}
+	// step i follows registration i-off (off = 1 when the state before any registration was observed)
+	off := 1
+	if len(sp.Regs) > 0 && (sp.Cold || sp.Burst > 0) {
+		off = 0
+	}
 	for i, st := range out.Steps {
-		if i > 0 {
-			cur[unq(sp.Regs[i-1].N)] = sp.Regs[i-1].D
+		if i-off >= 0 {
+			cur[unq(sp.Regs[i-off].N)] = sp.Regs[i-off].D
 		}
 		byStyle := map[string]C19Q{}
 		for _, q := range st.Qs {
@@ -400,8 +477,8 @@ func c19Run(spec json.RawMessage) CaseOut {
 	var steps []string
 	for i, st := range out.Steps {
 		reg := "None"
-		if i > 0 {
-			reg = cqSome(cqPair(nt.ref(unq(sp.Regs[i-1].N)), cqDec(sp.Regs[i-1].D)))
+		if i-off >= 0 {
+			reg = cqSome(cqPair(nt.ref(unq(sp.Regs[i-off].N)), cqDec(sp.Regs[i-off].D)))
 		}
 		var l []string
 		for _, n := range st.Listing {
@@ -422,10 +499,16 @@ func c19Run(spec json.RawMessage) CaseOut {
 			}
 			qs = append(qs, fmt.Sprintf("QQ %s %s %s %s %s", nt.ref(style), fs, ls, c19KindCoq[q.Kind], q.R.CoqC()))
 		}
-		steps = append(steps, fmt.Sprintf("St %s %s [\n    %s]", reg, cqList(l), strings.Join(qs, ";\n    ")))
+		steps = append(steps, fmt.Sprintf("St %s %s %s [\n    %s]", reg, cqBool(!st.Skipped), cqList(l), strings.Join(qs, ";\n    ")))
 	}
 	body := fmt.Sprintf("mkC19 %s %s [\n   %s]", cqBool(bad), c17InitCoq(nt, out.Init), strings.Join(steps, ";\n   "))
 	tags := []string{fmt.Sprintf("registrations=%d", len(sp.Regs))}
+	if sp.Cold {
+		tags = append(tags, "cold-start(first registry operation is a registration)")
+	}
+	if sp.Burst > 0 {
+		tags = append(tags, "concurrent-registration-burst")
+	}
 	for _, r := range sp.Regs {
 		tags = append(tags, "name:"+c19NameClass(unq(r.N)))
 		if r.D >= 10 {
@@ -508,6 +591,7 @@ func c19Gen(r *RNG, tier string) []json.RawMessage {
 			sp.Regs = append(sp.Regs, C19Reg{N: qname(n), D: c19AppDecs[(i+len(n))%len(c19AppDecs)]})
 		}
 		sp.Full = tier == "thorough" || len(out)%10 == 0
+		sp.Cold = len(out)%2 == 1
 		out = append(out, mustJSON(sp))
 	}
 	add() // the initial registry
@@ -530,6 +614,25 @@ func c19Gen(r *RNG, tier string) []json.RawMessage {
 		}
 	}
 	add("w1", "w2", "w3", "w4", "w5", "w6", "w7")
+	// the same name registered first thing in the process and after a listing
+	for _, n := range []string{"myplain", "my.dotted"} {
+		out = append(out, mustJSON(C19Spec{Regs: []C19Reg{{N: qname(n), D: 8}}, Cold: true}))
+		out = append(out, mustJSON(C19Spec{Regs: []C19Reg{{N: qname(n), D: 8}}}))
+	}
+	// several goroutines registering distinct names at once; after the join every name is listed and resolves
+	nb := 4
+	if tier == "thorough" {
+		nb = 16
+	}
+	for b := 0; b < nb; b++ {
+		var sp C19Spec
+		for k := 0; k < 48; k++ {
+			sp.Regs = append(sp.Regs, C19Reg{N: qname(fmt.Sprintf("b%d.%c%d", b, 'a'+k%7, k)), D: 1 + (k+b)%13})
+		}
+		sp.Burst = 8 + 4*(b%3)
+		sp.Cold = b%2 == 1
+		out = append(out, mustJSON(sp))
+	}
 	n := 10
 	if tier == "thorough" {
 		n = 400
@@ -557,6 +660,7 @@ func c19Gen(r *RNG, tier string) []json.RawMessage {
 			sp.Regs = append(sp.Regs, C19Reg{N: qname(nm), D: 1 + r.Intn(len(regPalette)-1)})
 		}
 		sp.Full = tier == "thorough" || i%5 == 0
+		sp.Cold = i%2 == 0
 		out = append(out, mustJSON(sp))
 	}
 	prefetchChildren("C19worker", out, 12)
@@ -570,12 +674,12 @@ func c19Shrink(spec json.RawMessage) []json.RawMessage {
 	}
 	var out []json.RawMessage
 	for i := range sp.Regs {
-		c := C19Spec{Extra: sp.Extra, Full: sp.Full}
+		c := C19Spec{Extra: sp.Extra, Full: sp.Full, Cold: sp.Cold, Burst: sp.Burst}
 		c.Regs = append(append([]C19Reg{}, sp.Regs[:i]...), sp.Regs[i+1:]...)
 		out = append(out, mustJSON(c))
 	}
 	for i := range sp.Extra {
-		c := C19Spec{Regs: sp.Regs, Full: sp.Full}
+		c := C19Spec{Regs: sp.Regs, Full: sp.Full, Cold: sp.Cold, Burst: sp.Burst}
 		c.Extra = append(append([]string{}, sp.Extra[:i]...), sp.Extra[i+1:]...)
 		out = append(out, mustJSON(c))
 	}
@@ -594,6 +698,9 @@ func init() {
 			"equal to a sub-package name, case variant of one, empty string, trailing dot, leading dot, dots only, non-UTF-8 bytes, a built-in overwritten, 'csv.foo', a name that only lower-cases " +
 			"to 'markdown' through U+212A, and the class 'texttable.x'); chosen orders of a dotted name and its prefixes; a world of 7 names; random worlds of 2-4 names; " +
 			"decorations: the built-ins, Populate()d ones and four written field by field without Populate (render fields only; only Horizontal/Vertical; a single field; verticals only) - anything but the zero value. " +
+			"Every other world is cold: its first registration is the first thing the process asks of the registry (no listing or lookup before it). " +
+			"4 (thorough 16) worlds register 48 distinct names at once from 8-16 goroutines and look only at the state after the join. " +
+			"Near misses of listed names (n+x, n+such, n minus its last byte, texttable.n+d) are asked and must name nothing. " +
 			"Before the first and after each registration: ListStyles and, per listed name, the name itself and 'texttable.'+name; after the last registration also case variants, " +
 			"'TextTable.' prefixes and trailing sections of every listed name, all five sub-package names in 5 ASCII case variants x 6 trailing forms, and 28 unknown/hostile strings. " +
 			"A case is non-trivial when it registers something; distinct = distinct worlds",
